@@ -42,6 +42,13 @@ def queries(tier):
             if tier == 'quick' and not (m % 8 == 0 or m >= size - 8 or m in (9, 15, 17, 31, 33)): continue
             qs.append(Q(f'td_c{nc}_b{nb}_s{single}_trunc{m:03d}', 'serde_td', 'c11_td.c', defs={'NC': nc, 'NB': nb, 'SINGLE': single, 'M': m}, unwind=12,
                         unwindset={'^harness$': 130, '^(verif_mem.*|verif_new.*|put64|put32)$': 260}, timeout=(200 if tier == 'quick' else 900), native_vectors=50, c_defs={'VERIF_NEW_CAPN': 250}, mem_gb=16))
+    # HLL_4 images (lg_k 4, HLL mode, one aux exception): compact (52 bytes) and updatable (64 bytes)
+    for (kind, size) in ((0, 52), (1, 64)):
+        for m in range(0, size + 1):
+            if tier == 'quick' and not (m % 8 == 0 or m >= size - 5 or m in (39, 41, 47, 49)): continue
+            qs.append(Q(f'hll4_kind{kind}_trunc{m:03d}', 'serde_hll', 'c11_hll.c', defs={'KIND': kind, 'SIZE': size, 'M': m}, tu_defs={'__OPT': '-O1 -fno-inline-functions -fno-inline -fno-pic'}, unwind=20,
+                        unwindset={'^harness$': 140, '^(verif_mem.*|verif_new.*|fnv.*|emit.*)$': 140, '^_ZN.*AuxHashMap': 7}, timeout=(300 if tier == 'quick' else 1200), native_vectors=50,
+                        c_defs={'VERIF_NEW_CAPN': 70, 'VERIF_VEC_CAP': 8, 'VERIF_CUT_HLL4_SHIFT': None, 'VERIF_SKIP_HLL_KXQ': None, 'VERIF_CUT_HLL_AUX_GROW': None}, slice_formula=True, mem_gb=16))
     # generic families: (fam, tu, nv, size) ; sizes recorded from the real serializer (asserted in the harness)
     for (fam, tu, nv, size, unw) in (GENERIC + (GENERIC_THOROUGH if tier == 'thorough' else [])):
         for m in range(0, size + 1):    # m == size: full image, round trip (C09)
